@@ -76,7 +76,7 @@ def pre_build():
 
 
 def cases(rng, tier):
-    return S.gen_cases(rng, tier, 480 if tier == "quick" else 2400)
+    return S.gen_cases(rng, tier, 480 if tier == "quick" else 2300)
 
 
 def search_cases(rng, tier):
